@@ -602,19 +602,58 @@ func (fv *FnVC) mergeStates(conds []string, sts []*State) *State {
 	if len(ds) > 0 {
 		out.dirty = fv.def("dirty", "Bool", or(ds...))
 	}
-	// ghost call results: merged like values; a key missing on some path is dropped
-	for k := range sts[0].ghost {
+	// ghost call records: merged like values. A record missing on some path gets
+	// an unconstrained value there and its presence flag ("has:"+key) is false.
+	gkeys := map[string]bool{}
+	for _, s := range sts {
+		for k := range s.ghost {
+			if !strings.HasPrefix(k, "has:") {
+				gkeys[k] = true
+			}
+		}
+	}
+	var gks []string
+	for k := range gkeys {
+		gks = append(gks, k)
+	}
+	sort.Strings(gks)
+	for _, k := range gks {
 		var vs []Val
+		var hs []Val
+		var proto *Val
+		for _, s := range sts {
+			if v, ok := s.ghost[k]; ok {
+				proto = &v
+				break
+			}
+		}
+		if proto.K == KStruct || proto.K == KTuple {
+			continue
+		}
+		all := true
 		for _, s := range sts {
 			if v, ok := s.ghost[k]; ok {
 				vs = append(vs, v)
+				if h, ok := s.ghost["has:"+k]; ok {
+					all = false
+					hs = append(hs, h)
+				} else {
+					hs = append(hs, Val{K: KBool, T: "true"})
+				}
+			} else {
+				all = false
+				u := *proto
+				u.T = fv.decl("nocall", proto.sortOf())
+				vs = append(vs, u)
+				hs = append(hs, Val{K: KBool, T: "false"})
 			}
 		}
-		if len(vs) == len(sts) {
-			if out.ghost == nil {
-				out.ghost = map[string]Val{}
-			}
-			out.ghost[k] = fv.mergeVals(conds, vs)
+		if out.ghost == nil {
+			out.ghost = map[string]Val{}
+		}
+		out.ghost[k] = fv.mergeVals(conds, vs)
+		if !all {
+			out.ghost["has:"+k] = fv.mergeVals(conds, hs)
 		}
 	}
 	out.epoch = sts[0].epoch
